@@ -1339,10 +1339,13 @@ namespace vf
       }
    };
 
-   template< typename Rule, bool WithUnwind = true >
+   template< typename Rule, bool WithUnwind = true, bool Visible = false >
    struct obs_control
       : obs_control_unwind< Rule, WithUnwind >
    {
+      // Visible: a control that enables its hooks for ALL rules, also the internal ones the library hides by default
+      static constexpr bool enable = Visible ? true : pegtl::normal< Rule >::enable;
+
       template< pegtl::apply_mode A,
                 pegtl::rewind_mode M,
                 template< typename... >
@@ -1355,7 +1358,7 @@ namespace vf
       {
          monitor& m = mon();
          // `enabled` = are this observer's hooks expected for Rule (a wrapping control such as state_control may enable more rules for itself)
-         const std::size_t depth = obs::enter( typeid( Rule ), A == pegtl::apply_mode::action, M == pegtl::rewind_mode::required, pegtl::normal< Rule >::enable, m.take( in ), rule_is_lookahead< Rule >::value, rule_may_raise< Rule >::value || is_slot< Rule >::value, fam_id_of< Action< void > >::value, ctl_id_of< Control< void > >::value, m.check_scopes ? serial_of_first( st... ) : 0 );
+         const std::size_t depth = obs::enter( typeid( Rule ), A == pegtl::apply_mode::action, M == pegtl::rewind_mode::required, enable, m.take( in ), rule_is_lookahead< Rule >::value, rule_may_raise< Rule >::value || is_slot< Rule >::value, fam_id_of< Action< void > >::value, ctl_id_of< Control< void > >::value, m.check_scopes ? serial_of_first( st... ) : 0 );
          constexpr bool eager = ( ParseInput::tracking_mode_v == pegtl::tracking_mode::eager );
          bool result;
          try {
@@ -1378,6 +1381,10 @@ namespace vf
    {};
    template< typename Rule >
    struct obs_control_unw : obs_control< Rule, true >
+   {};
+   // hooks enabled for every rule, including internal ones (C08: "internal rules visible or hidden")
+   template< typename Rule >
+   struct obs_control_visible : obs_control< Rule, true, true >
    {};
    // a second, otherwise identical control family (C13: control<> / change_control<>)
    template< typename Rule >
